@@ -196,7 +196,7 @@ class RuntimeV1_0(Runtime):
                 break
 
             # As a safety measure, we stop the processing if we have too many events.
-            if len(new_events) > 100:
+            if len(new_events) > self.max_events:
                 raise Exception("Too many events.")
 
         return new_events
